@@ -21,6 +21,7 @@
 //!     document, `Err` for each failing one, and keeps going.
 
 mod docgen;
+mod dupmap;
 mod obsv;
 mod oracle;
 mod types;
@@ -213,7 +214,18 @@ fn replay(run: &Run, rep: &J) {
     let arrs = |v: &J| -> BTreeMap<String, Arr> {
         v.as_object().map(|o| o.iter().map(|(k, x)| (k.clone(), Arr::from_name(x.as_str().unwrap_or("")))).collect()).unwrap_or_default()
     };
-    if case["kind"] == "stream" {
+    if case["kind"] == "dupmap" {
+        let d = dupmap::DmDoc {
+            text: case["doc"].as_str().unwrap_or("").to_string(),
+            pol: dupmap::Pol::from_name(case["policy"].as_str().unwrap_or("")),
+            viol: set(&case["viol"]),
+            arrivals: BTreeMap::new(),
+            intended: None,
+            exp_line: BTreeMap::new(),
+            repeated: true,
+        };
+        dupmap::check(run, &d, true);
+    } else if case["kind"] == "stream" {
         let s = StreamBuilt {
             text: case["text"].as_str().unwrap_or("").to_string(),
             viols: case["viols"].as_array().map(|a| a.iter().map(set).collect()).unwrap_or_default(),
@@ -319,6 +331,63 @@ fn main() {
         }
     }
 
+    // ---- repeated keys in a map of validated values under LastWins / FirstWins
+    {
+        use dupmap::{Entry, Pol};
+        let lmax = tier.pick(3usize, 4usize);
+        let mut specs: Vec<Vec<Entry>> = Vec::new();
+        for l in 1..=lmax {
+            for code in 0..8usize.pow(l as u32) {
+                let mut c = code;
+                let mut es = Vec::new();
+                for _ in 0..l {
+                    let o = c % 8;
+                    c /= 8;
+                    es.push(Entry { key: o & 1, tag_ok: o & 2 != 0, w_ok: o & 4 != 0, alias_of: None });
+                }
+                specs.push(es);
+            }
+        }
+        run.count("repeated_key_map_exhaustive_entry_lists", specs.len() as u64);
+        par_range(specs.len() * 4, |i| {
+            let es = &specs[i / 4];
+            let pol = if i % 2 == 0 { Pol::Last } else { Pol::First };
+            let flow = (i / 2) % 2 == 1;
+            let d = dupmap::build((i / 4) % 3 != 0, es, flow, pol);
+            if reftree::parse_one(&d.text).is_none() {
+                run.inconclusive("generator-invalid: repeated-key document");
+                return;
+            }
+            dupmap::check(&run, &d, i % 8 < 2);
+            if i % 1201 == 0 {
+                run.sample(|| json!({"repeated_key_map": d.text, "policy": pol.name(), "violated": d.viol}));
+            }
+        });
+        let n_rand = tier.pick(2_000, 20_000);
+        par_range(n_rand, |i| {
+            let mut rng = Rng::stream(run.seed ^ 0xD0B1_E000, i as u64);
+            let n = rng.range(2, 7);
+            let mut es: Vec<Entry> = Vec::new();
+            for j in 0..n {
+                let directs: Vec<usize> = (0..j).filter(|&k| es[k].alias_of.is_none()).collect();
+                let alias_of = if !directs.is_empty() && rng.chance(1, 4) { Some(*rng.pick(&directs)) } else { None };
+                let (tag_ok, w_ok) = match alias_of {
+                    Some(k) => (es[k].tag_ok, es[k].w_ok),
+                    None => (!rng.chance(1, 3), !rng.chance(1, 3)),
+                };
+                es.push(Entry { key: rng.below(3), tag_ok, w_ok, alias_of });
+            }
+            let pol = if rng.bool() { Pol::Last } else { Pol::First };
+            let d = dupmap::build(!rng.chance(1, 4), &es, rng.chance(1, 3), pol);
+            if reftree::parse_one(&d.text).is_none() {
+                run.inconclusive("generator-invalid: repeated-key document");
+                return;
+            }
+            run.count("repeated_key_map_random_docs", 1);
+            dupmap::check(&run, &d, rng.chance(1, 4));
+        });
+    }
+
     // ---- random single documents
     let n_random = tier.pick(6_000, 80_000);
     par_range(n_random, |i| {
@@ -401,6 +470,7 @@ fn main() {
     .assume("the raw saphyr-parser event stream confirms every generated document (render_checked)")
     .assume("model guards: plain from_str value == generator's intended value, validation crate's verdict on the plain value == chosen set, mirror (Spanned) parse has a location for every violated leaf; otherwise the case is inconclusive")
     .assume("definition site is only exposed by the snippet rendering (value_comes_from_the_anchor) and by Error::locations() for the first entry; reader entry points render without snippets, so for them the definition site of the 2nd.. issue is not observable (counted as unspecified)")
+    .assume("repeated keys (map of validated values, LastWins / FirstWins): garde only — validator reports map entries by iteration index (limits[0].weight), which cannot be mapped to a YAML key (unspecified); exhaustive over every entry list of length <= 3 (quick) / 4 (thorough) over 2 keys x leaf validity x {LastWins, FirstWins} x {block, flow}")
     .assume("decoy keys: when an unknown key matches the Rust field name at an earlier lookup pass than the real key the reported location is unspecified; on a tie the location may be unknown but must not be wrong")
     .min_nontrivial(if tier == Tier::Quick { 5_000 } else { 50_000 });
     run.finish(fin);
